@@ -66,17 +66,22 @@ type decoder struct{}
 
 // Decode parses the payload grammar
 //
-//	"ok:<name>:<v>"       valid resource <name>
-//	"bad:<name>:<reason>" resource <name> that fails validation with <reason>
+//	"ok:<name>:<v>"       valid resource <name>            (<v>, <reason>: integers;
+//	"bad:<name>:<reason>" resource <name> that fails validation with <reason>   <name> may contain ':')
 //	anything else         not deserialisable (no name)
 func (decoder) Decode(res *xdsclient.AnyProto, _ xdsclient.DecodeOptions) (*xdsclient.DecodeResult, error) {
 	p := string(res.ToAny().GetValue())
-	parts := strings.SplitN(p, ":", 3)
-	if len(parts) == 3 && parts[0] == "ok" {
-		return &xdsclient.DecodeResult{Name: parts[1], Resource: &Data{Payload: p}}, nil
-	}
-	if len(parts) == 3 && parts[0] == "bad" {
-		return &xdsclient.DecodeResult{Name: parts[1]}, fmt.Errorf("verif-reject[%s:%s]", parts[1], parts[2])
+	// <kind>:<name>:<int>; the name itself may contain ':' (xdstp://...), the
+	// first and the last field cannot.
+	i, j := strings.Index(p, ":"), strings.LastIndex(p, ":")
+	if i > 0 && j > i+1 {
+		kind, name, arg := p[:i], p[i+1:j], p[j+1:]
+		if kind == "ok" {
+			return &xdsclient.DecodeResult{Name: name, Resource: &Data{Payload: p}}, nil
+		}
+		if kind == "bad" {
+			return &xdsclient.DecodeResult{Name: name}, fmt.Errorf("verif-reject[%s:%s]", name, arg)
+		}
 	}
 	return nil, fmt.Errorf("verif-undecodable[%s]", p)
 }
@@ -155,6 +160,7 @@ func (c *Call) Release() {
 // Watcher records the callbacks of one registered watch.
 type Watcher struct {
 	ID        int
+	A         int // authority index: 0 = top-level (old-style names), k = named authority k
 	T         int
 	Name      string
 	Hold      bool // keep the done callbacks until the plan releases them
@@ -465,7 +471,15 @@ type Options struct {
 	Servers   int
 	IgnoreDel []bool // per server: ignore_resource_deletion feature
 	Expiry    time.Duration
+	// Auths are the named authorities "verif-auth-<k>", k = 1..len(Auths): the
+	// ordered list of server indices of each (distinct, < Servers). An empty
+	// list means "inherit the top-level server list". nil = no named
+	// authorities (old behaviour: only the top-level authority exists).
+	Auths [][]int
 }
+
+// AuthName is the name of named authority k (k >= 1) in the client config.
+func AuthName(k int) string { return fmt.Sprintf("verif-auth-%d", k) }
 
 // New creates the client. Must be called inside a bubble.
 func New(o Options) (*Rig, error) {
@@ -479,12 +493,26 @@ func New(o Options) (*Rig, error) {
 		ResourceTypes:      map[string]xdsclient.ResourceType{},
 		WatchExpiryTimeout: o.Expiry,
 	}
+	// one ServerConfig value per server: authorities that list the same server
+	// share its xdsChannel (channels are keyed by ServerConfig).
+	var scs []xdsclient.ServerConfig
 	for i := 0; i < o.Servers; i++ {
 		sc := xdsclient.ServerConfig{ServerIdentifier: clients.ServerIdentifier{ServerURI: ServerURI(i)}}
 		if i < len(o.IgnoreDel) && o.IgnoreDel[i] {
 			sc.ServerFeature = xdsclient.ServerFeatureIgnoreResourceDeletion
 		}
-		cfg.Servers = append(cfg.Servers, sc)
+		scs = append(scs, sc)
+	}
+	cfg.Servers = append(cfg.Servers, scs...)
+	if len(o.Auths) > 0 {
+		cfg.Authorities = map[string]xdsclient.Authority{}
+		for k, list := range o.Auths {
+			var a xdsclient.Authority
+			for _, i := range list {
+				a.XDSServers = append(a.XDSServers, scs[i])
+			}
+			cfg.Authorities[AuthName(k+1)] = a
+		}
 	}
 	for _, ts := range Types {
 		cfg.ResourceTypes[ts.URL] = xdsclient.ResourceType{TypeURL: ts.URL, TypeName: ts.Name, AllResourcesRequiredInSotW: ts.AllRequired, Decoder: decoder{}}
@@ -507,10 +535,14 @@ func (r *Rig) SetOp(i int) {
 	r.mu.Unlock()
 }
 
-// Watch registers a new watcher.
-func (r *Rig) Watch(t int, name string, hold bool) *Watcher {
+// Watch registers a new watcher for a resource of the top-level authority.
+func (r *Rig) Watch(t int, name string, hold bool) *Watcher { return r.WatchAuth(0, t, name, hold) }
+
+// WatchAuth registers a new watcher; a is the authority the name belongs to
+// (only recorded, the client derives it from the name).
+func (r *Rig) WatchAuth(a, t int, name string, hold bool) *Watcher {
 	r.mu.Lock()
-	w := &Watcher{ID: len(r.Watchers), T: t, Name: name, Hold: hold, rig: r}
+	w := &Watcher{ID: len(r.Watchers), A: a, T: t, Name: name, Hold: hold, rig: r}
 	r.Watchers = append(r.Watchers, w)
 	r.mu.Unlock()
 	w.cancel = r.Client.WatchResource(Types[t].URL, name, w)
@@ -585,30 +617,51 @@ func (r *Rig) Flow() (flow, problems []string) {
 
 // ResSpec is one resource inside a generated response.
 type ResSpec struct {
-	N    int `json:"n"`    // name index
-	Kind int `json:"kind"` // 0 ok, 1 bad, 2 undecodable
-	V    int `json:"v"`    // content version (ok) or reason (bad)
+	N    int `json:"n"`           // name index
+	Kind int `json:"kind"`        // 0 ok, 1 bad, 2 undecodable
+	V    int `json:"v"`           // content version (ok) or reason (bad)
+	A    int `json:"a,omitempty"` // authority of the name (0 = top-level, old-style name)
 }
 
-// ResName maps a name index to a resource name.
+// ResName maps a name index to an old-style resource name (top-level authority).
 func ResName(n int) string { return fmt.Sprintf("r%d", n) }
 
-// Payload renders the resource payload.
-func (rs ResSpec) Payload() string {
+// ResNameA is the name of resource n of type t (0,1 registered; anything else:
+// the unregistered type) in authority a: old-style "r<n>" for the top-level
+// authority, "xdstp://verif-auth-<a>/<type>/r<n>" for a named one. Names of
+// different authorities are distinct by construction; the client routes a
+// watch to an authority by parsing the name.
+func ResNameA(a, t, n int) string {
+	if a <= 0 {
+		return ResName(n)
+	}
+	u := UnknownURL
+	if t >= 0 && t < len(Types) {
+		u = Types[t].URL
+	}
+	return fmt.Sprintf("xdstp://%s/%s/r%d", AuthName(a), strings.TrimPrefix(u, "type.googleapis.com/"), n)
+}
+
+// Payload renders the resource payload for a response of type t.
+func (rs ResSpec) Payload(t int) string {
 	switch rs.Kind {
 	case 0:
-		return fmt.Sprintf("ok:%s:%d", ResName(rs.N), rs.V)
+		return fmt.Sprintf("ok:%s:%d", ResNameA(rs.A, t, rs.N), rs.V)
 	case 1:
-		return fmt.Sprintf("bad:%s:%d", ResName(rs.N), rs.V)
+		return fmt.Sprintf("bad:%s:%d", ResNameA(rs.A, t, rs.N), rs.V)
 	}
 	return fmt.Sprintf("junk%d", rs.V)
 }
 
-// MarshalResponse builds a DiscoveryResponse.
-func MarshalResponse(typeURL, version, nonce string, res []ResSpec) []byte {
+// MarshalResponse builds a DiscoveryResponse of type t (2 = unregistered).
+func MarshalResponse(t int, version, nonce string, res []ResSpec) []byte {
+	typeURL := UnknownURL
+	if t >= 0 && t < len(Types) {
+		typeURL = Types[t].URL
+	}
 	resp := &v3discoverypb.DiscoveryResponse{TypeUrl: typeURL, VersionInfo: version, Nonce: nonce}
 	for _, rs := range res {
-		resp.Resources = append(resp.Resources, &anypb.Any{TypeUrl: typeURL, Value: []byte(rs.Payload())})
+		resp.Resources = append(resp.Resources, &anypb.Any{TypeUrl: typeURL, Value: []byte(rs.Payload(t))})
 	}
 	b, err := proto.Marshal(resp)
 	if err != nil {
